@@ -121,6 +121,26 @@ def refinement_clause(model, rep, funcs):
         rep.instance("A.codec", cm.loc())
         rep.ob("A", cm.anchor, "mesh encoder and offset agree: first sampled coordinate = integer peak + pad + offset", ok, det[:400], node=cm.node,
                fn=cm, clause="1 refinement", stmt="def _create_mesh codec")
+        # the refinement mesh is never empty (arg-max of an empty landscape raises): at least one sample per axis, for max_shifts == 0 as well
+        if isinstance(val, Tup) and len(val.items) == 2:
+            seqs_ = it.items_of(val.items[0]) if not isinstance(val.items[0], Seq) else [val.items[0]]
+            from ..domains.affine import BoolC as _BC
+            sh_ = dom.vec(env.get("shifts")) if env.get("shifts") is not None else None
+            for i, q in enumerate(seqs_ or []):
+                if not isinstance(q, Seq) or not isinstance(q.n, A) or not q.n.is_poly() or not sh_ or i >= len(sh_):
+                    continue
+                rep.instance("A.window", f"{cm.loc()} mesh axis {i}")
+                goal = dom.add(q.n, mkA(-1))
+                # precondition (clause 2, integer crop): the integer peak handed to _create_mesh lies within +-max_shifts
+                pre_ = [_BC(dom.add(m.items[i], dom.neg(sh_[i])), ">="), _BC(dom.add(m.items[i], sh_[i]), ">=")]
+                if dom.prove_ge(goal.poly(), pre_):
+                    okn, detn = True, ""
+                else:
+                    wit = dom.find_witness(goal, pre_, tol=Fraction(0))
+                    okn, detn = (False, f"the refinement mesh has {wit[1] + 1:.0f} sample(s) on axis {i} for {wit[0]}: the arg-max of an empty landscape raises"[:500]) \
+                        if wit is not None else (None, f"cannot prove that the mesh has at least one sample (count {q.n!r})"[:300])
+                rep.ob("A", cm.anchor, f"axis {i}: the refinement mesh contains at least one sample", okn, detn, node=cm.node, fn=cm, clause="1 refinement",
+                       stmt=f"_create_mesh nonempty #{i}")
         # decode identity in upsample: shift_i = (maxima_i - mid_i) + offset_i + k_i * step_i
         if isinstance(val, Tup) and len(val.items) == 2 and ok is not None:
             seqs = it.items_of(val.items[0])
@@ -661,7 +681,7 @@ def check(model, rep, tier):
                     "Fourier-Motzkin); mesh encoder/decoder identity", "C05.2 ZNCC/NCC crop: pad_width_eff >= 1, symmetric, half-width <= max_shifts",
                     "C05.3 crop_by_max_shifts only on FFT-layout arrays", "C05.4 every nm->px conversion of max_shifts is preceded by _normalize_max_shifts"]
     rep.decided += ["C05.6 the ZNCC/NCC and FSC landscapes divide only where the norm is positive (finite on constant / empty data)"]
-    rep.not_decided += ["finiteness inside the PCC upsampled DFT", "absence of exceptions inside scipy/numpy", "non-emptiness of the refinement mesh"]
+    rep.not_decided += ["finiteness inside the PCC upsampled DFT", "absence of exceptions inside scipy/numpy"]
     rep.assumptions += ["max_shifts >= 0 per axis; image sizes >= 1", "fftconvolve is summarised as valid-mode correlation (shape s1-s2+1, origin = left padding)",
                         "_upsampled_dft output has zero displacement at index dftshift (trusted summary)"]
     funcs = need_funcs(model, rep, ANCHORS)
